@@ -23,6 +23,7 @@ registers after acknowledging shows up in the window.
 
 Op grammar (one label per record; observation after `=>`):
   config <capT> <capP> <capR> <hook0|hook1>      => ok          caps: unset|on|off
+  config <capT> <capP> <on|off> <hook0|hook1> nohandlers => ok    (ServerOptions without Subscribe/UnsubscribeHandler, explicit capabilities with resources.subscribe: every resources/subscribe, resources/unsubscribe and every URI of a subscriptions/listen fails; = the application refuses u0…u7 from the start)
   ttl <ms>                                         => ok
   change <tools|prompts|resources|templates> <add|replace|remove|noop>  => ok
   change <set> rm <p|a|d>+                         => ok          (ONE Remove*(names…) call: p a registered feature, a a never-registered name, d a name named before in the call)
@@ -555,12 +556,26 @@ structure DState where
   mon : MState := {}
   roots : RDState := {}
   pages : PDState := {}
+  /-- the server of this case has no Subscribe/UnsubscribeHandler: `policy … accept` changes nothing -/
+  nosub : Bool := false
 
 def engine : Engine DState where
   init := {}
   step d toks impl :=
     match toks with
     | ["reset"] => ({}, { model := "ok" })
+    | ["config", a, b, c, h, "nohandlers"] =>
+      -- A server with neither SubscribeHandler nor UnsubscribeHandler (explicit capabilities that still say
+      -- resources.subscribe): `Server.subscribe` returns "does not support resource subscriptions" before it
+      -- touches the table, `Server.unsubscribe` returns method-not-found: for the typed model this is an
+      -- application that refuses EVERY URI from the start — the `config` label followed by `policy u refuse`
+      -- for the URIs of the harness (u0 … u7), fed through model and monitor like any other ops.
+      if c == "unset" then ({ d with nosub := false }, { model := "bad-op" }) else
+      let run := (Op.config ((parseCap a).getD .unset) ((parseCap b).getD .unset) ((parseCap c).getD .unset) (h == "hook1")) ::
+        (List.range 8).map (fun u => Op.policy u true)
+      let (sys', mon') := run.foldl (fun (p : Sys.State × MState) op =>
+        ((Sys.sysStep p.1 op none).1, (monStep p.2 ⟨op, .ok⟩).1)) (d.sys, d.mon)
+      ({ d with sys := sys', mon := mon', nosub := true }, { model := "ok" })
     | "pages" :: rest =>
       let (p', model, viol) := pagesStep d.pages rest impl
       ({ d with pages := p' }, { model := model, violated := viol })
@@ -569,6 +584,9 @@ def engine : Engine DState where
       ({ d with roots := r' }, { model := model, violated := viol })
     | _ =>
       let park := isPark toks
+      let toks := match d.nosub, toks with
+        | true, ["policy", u, _] => ["policy", u, "refuse"]
+        | _, _ => toks
       let op := if park && !parkable d.sys toks then Op.bad else parseOp (normToks toks)
       let impl' := if park && impl == "ok unsub-held" then "ok cancel-held"
                    else if impl == "ok cancel-held" && park then "?" else impl
